@@ -36,6 +36,9 @@ def replay_dict(inputs, obl):
     k = KlongInterpreter()
     k('d:::{[0 10] [1 11]}')
     for src, want in (('d?0', 10), ('0_d', None), ('d?0', KLONG_UNDEFINED), ('#d', 1), ('d,[0.0 5]', None), ('d?0.0', 5), ('0.0_d', None), ('#d', 1),
+                      ('m:::{["ab" 1] ["a" 2] ["b" 3] ["" 4]}', None), ('"ab"_m', None), ('m?"ab"', KLONG_UNDEFINED), ('m?"a"', 2), ('m?"b"', 3), ('#m', 3),
+                      ('""_m', None), ('m?""', KLONG_UNDEFINED), ('#m', 2),
+                      ('e2::m', None), ('e2,"z",,9', None), ('m?"z"', 9), ('"a"_e2', None), ('m?"a"', KLONG_UNDEFINED),
                       ('h:::{["host" 1]}', None), ('h?:host', KLONG_UNDEFINED), ('h,:host,,2', None), ('h?:host', 2), ('h?"host"', 1), (':host_h', None),
                       ('h?:host', KLONG_UNDEFINED), ('h?"host"', 1), ('#h', 1)):
         try:
